@@ -204,6 +204,8 @@ def aval(case, j):
             from pyformlang.finite_automaton import Epsilon, Symbol
             return [None, Epsilon(), Symbol("epsilon"), "\u025b"][f]     # object, Symbol with the text, the letter
         return "epsilon"
+    if case.get("manysyms"):
+        return j                            # large alphabets: the index itself (ints iterate in numeric order)
     if case["vc"] == "inject" and not case.get("token"):
         sp = case.get("sperm")
         return values.K("y%d" % j, sp[j] if sp and j < len(sp) else j)
@@ -361,16 +363,20 @@ def many_classes_case(rng, n=450, k=3):
             "token": False, "scale": "many_classes", "long_words": longs}
 
 
-def many_symbols_case(rng, k=70):
-    """five states over seventy symbols; the states are told apart only by the symbols with the largest indices"""
-    n = 5
+def many_symbols_case(rng, k=None):
+    """a handful of states over 65-70 symbols, of which only those with the largest indices label transitions (the others
+    are declared): the states are told apart by symbols number 64 and above only"""
+    k = k or rng.randint(66, 70)
+    n = rng.randint(4, 8)
     trans = []
     for i in range(n):
-        for a in range(k):
-            trans.append([i, a, (i + 1) % n if a < 64 else (i * 2 + a) % n])
-    return {"kind": "dfa", "n": n, "k": k, "start": [0], "final": [n - 1], "trans": trans, "extra": [], "vc": "int",
-            "token": False, "scale": "many_symbols", "manysyms": True,
-            "long_words": [[rng.randrange(k) for _ in range(rng.randint(1, 4))] for _ in range(60)]}
+        for a in range(64, k):
+            if rng.random() < 0.85:
+                trans.append([i, a, rng.randrange(n)])
+    finals = sorted({rng.randrange(n)} | {i for i in range(n) if rng.random() < 0.3})
+    return {"kind": "dfa", "n": n, "k": k, "start": [0], "final": finals, "trans": trans, "extra": list(range(64)),
+            "vc": "int", "token": False, "scale": "many_symbols", "manysyms": True,
+            "long_words": [[rng.randrange(64, k) for _ in range(rng.randint(1, 5))] for _ in range(60)]}
 
 
 def counter_case(m, vc="int"):
